@@ -10,6 +10,7 @@ import (
 	"reflect"
 	"regexp"
 	"strings"
+	"sync/atomic"
 	"time"
 
 	"github.com/iotaledger/hive.go/serializer/v2/serix"
@@ -58,6 +59,9 @@ type finding struct {
 }
 
 var ctx = context.Background()
+
+// classifyBudget bounds the number of shrink runs per process.
+var classifyBudget = func() *atomic.Int64 { b := new(atomic.Int64); b.Store(600); return b }()
 
 func opts(validation bool) []serix.Option {
 	if validation {
@@ -460,7 +464,20 @@ func runCase(st *stats, u *sergen.Universe, shapeIdx int, s *sergen.Shape, v *se
 		}
 		seenForm[f.form] = true
 		top := node{s, v, nil}
-		n, nf, ok := minimize(u, top, f.form, validation, bseed)
+		var n node
+		var nf finding
+		ok := false
+		// shrinking re-runs the oracle on sub-nodes; it is bounded per process so that a tree on
+		// which (nearly) every case fails still finishes – the surplus is reported unclassified
+		if classifyBudget.Add(-1) >= 0 {
+			n, nf, ok = minimize(u, top, f.form, validation, bseed)
+		} else {
+			st.count("refuting_observations_not_shrunk", 1)
+			fp := fmt.Sprintf("%s:%s@unclassified", f.form, f.symptom)
+			st.viols = append(st.viols, viol{fp, f.detail + " (not shrunk: classification budget of this process used up)", replayRec{Part: "serix", Static: u.Static, USeed: u.Seed,
+				ShapeIdx: shapeIdx, ValIdx: valIdx, Validation: validation, Shape: short(s.String(), 600), Detail: f.detail}})
+			continue
+		}
 		if !ok {
 			n, nf = top, f
 		}
